@@ -1998,6 +1998,26 @@ def wf_programs(rng, tier):
             if rng.random() < 0.3:
                 sp["probe"] = rng.randrange(len(prog))
             yield sp
+    # programs holding ONE inconsistency the builders are documented to refuse (rows that disagree: conditional cases, an
+    # exit branch, a function's declared outputs).  On the unchanged tree a call raises and the property says nothing;
+    # should no call raise, the program satisfies the premise of the property and its HUGR must be valid like any other
+    # (seeded change C01-15: a declaration with the EMPTY row treated as no declaration, so that `set_outputs` with a
+    # non-empty row silently rewrites the signature a `Call` made earlier still carries)
+    for i in range(n_prog // 4):
+        cls = ("declared_mismatch", "case_outputs_differ", "exit_mismatch")[i % 3]
+        fam = {"declared_mismatch": "module", "case_outputs_differ": "conditional", "exit_mismatch": "cfg"}[cls]
+        prng = random.Random(rng.randrange(2**31))
+        inj = None
+        for _ in range(6):
+            prog = gen_prog.gen_wf_program(prng, prng.randint(3, 30), {"to_json": True, "family": fam, "depth": 3})
+            inj = gen_prog.inject_inconsistency(prng, prog, cls)
+            if inj is not None:
+                break
+        if inj is None:
+            continue
+        prog = inj["prog"]
+        for w in range(sum(1 for c in prog if c[0] == "to_json")):
+            yield {"kind": "program", "prog": prog, "family": f"inconsistent:{cls}", "which": w, "maybe_raises": True}
     for i in range(n_circ):
         prog = gen_prog.gen_tracked_circuit(
             random.Random(rng.randrange(2**31)), rng.randint(1, 5), rng.randint(1, 12), {"bad": 0.0}
@@ -2246,6 +2266,8 @@ def oracle(spec):
     doc, info = get_doc(spec)
     k = spec["kind"]
     if doc is None:
+        if k == "program" and spec.get("maybe_raises"):
+            return []  # a builder call raised: the premise of the property is false for this program, nothing is claimed
         if k in ("module", "script", "program"):
             return [Failure(_family(spec), f"builder-raises-{info.get('error')}", info.get("detail", ""))]
         return []
